@@ -506,7 +506,94 @@ def rule_if_merge(run):
     run.end()
 
 
-RULES = [rule_chain, rule_pushed, rule_alias, rule_index_capture, rule_if_merge]
+def rule_with_exit(run):
+    """shared by C01 (async with), C03 (with) and C10 (context-manager protocol)"""
+    run.begin(
+        "C03.with",
+        "with / async with: __exit__/__aexit__ runs on every path out of the block exactly once: it is bound to every "
+        "return path of the body, and appended after the body unless the body returns on EVERY path (returns_always); "
+        "exits run in reverse order of entry",
+        floor=8,
+    )
+    prep = run.idx.mod(PREP)
+    ai = prep.func("PrepareAst.apply_impl")
+    for cls_, enter, exit_ in (("ast.With", "__enter__", "__exit__"), ("ast.AsyncWith", "__aenter__", "__aexit__")):
+        br = ot.find_branch(ai.node, ot.isinstance_test("inp", cls_))
+        if br is None:
+            raise AnalysisError(f"anchor vanished: {cls_} handler")
+        name = f"apply_impl[{cls_}]"
+        loops = [l for l in ast.walk(br) if isinstance(l, ast.For) and src(l.iter).endswith("[::-1]")]
+        ok = len(loops) == 1
+        run.ob(ok, name, file=prep.rel, line=br.lineno, detail="reverse-order", expected="exits processed in reverse order of entry (exit_list[::-1])", found=f"{len(loops)} reversed loop(s)")
+        if not loops:
+            continue
+        lp = loops[0]
+        # the list the loop reverses is filled with (context, type(context).<exit>) for every item
+        lst = dotted(lp.iter.value) if isinstance(lp.iter, ast.Subscript) else None
+        ok = lst is not None and any(P.has(br, f"__l.append((__c, type(__c).{exit_}))", {"__l": lst}) for _ in (0,))
+        run.ob(ok, name, file=prep.rel, line=lp.lineno, detail="exit-recorded", expected=f"every entered context is recorded with its {exit_}", found="ok" if ok else "changed")
+        guard = [g for g in lp.body if isinstance(g, ast.If) and isinstance(g.test, ast.UnaryOp) and isinstance(g.test.op, ast.Not) and isinstance(g.test.operand, ast.Name)]
+        if len(guard) != 1:
+            raise AnalysisError(f"{cls_}: `if not <returns-always flag>:` guarding the trailing exit not recognised")
+        flag = guard[0].test.operand.id
+        sets = [a for a in ast.walk(lp) if isinstance(a, ast.Assign) and dotted(a.targets[0]) == flag]
+        bad = []
+        for a in sets:
+            v = a.value
+            if isinstance(v, ast.Constant) and not v.value:
+                continue
+            if P.match(P.compile_pattern("__f or __s.returns_always()"), v, {"__f": flag}) is not None:
+                continue
+            bad.append(src(a))
+        run.ob(not bad and len(sets) >= 2, name, file=prep.rel, line=guard[0].lineno, detail="trailing-exit-condition",
+               expected="the trailing exit is skipped only if some statement returns on every path (.returns_always())", found="; ".join(bad) or "ok")
+        tail = [c for c in calls_in(guard[0]) if isinstance(c.func, ast.Attribute) and c.func.attr == "append"]
+        ok = len(tail) == 1 and "subcall(fn" in src(tail[0]).replace(" ", "") .replace("self.", "") or (len(tail) == 1 and "fn" in {n.id for n in ast.walk(tail[0]) if isinstance(n, ast.Name)})
+        run.ob(ok, name, file=prep.rel, line=guard[0].lineno, detail="trailing-exit", expected="exit call appended after the body", found="ok" if ok else "changed")
+        rp = P.find(lp, "__rp._final_bound_statements.append(___)")
+        ok = False
+        for node, b in rp:
+            for anc in prep.parents.ancestors(node):
+                if isinstance(anc, ast.For) and isinstance(anc.target, ast.Name) and anc.target.id == b["__rp"] and src(anc.iter).endswith("._return_paths"):
+                    ok = True
+        run.ob(ok, name, file=prep.rel, line=lp.lineno, detail="exit-on-return-paths", expected="for return_path in stmt._return_paths: return_path._final_bound_statements.append(<exit call>)", found="ok" if ok else "missing")
+    run.end()
+
+
+def rule_std_assignable(run):
+    run.begin(
+        "C03.std",
+        "std.AssignableType (Record, Array, Fixed, Enum, BitField ...): `<<=` / `.next` is NEXT, `@=` / `.value` is VALUE, "
+        "`^=` / `.push` is PUSH - operator methods forward the documented AssignMode, property setters use the matching operator",
+        floor=6,
+    )
+    at = run.idx.mod("cohdl/std/_assignable_type.py")
+    ops = {"__ilshift__": "NEXT", "__imatmul__": "VALUE", "__ixor__": "PUSH"}
+    for meth, mode in ops.items():
+        f = at.func(f"AssignableType.{meth}")
+        param = f.node.args.args[1].arg
+        ok = P.has(f.node, f"self._assign_({param}, cohdl.AssignMode.{mode})") and isinstance(f.node.body[-1], ast.Return) and dotted(f.node.body[-1].value) == "self"
+        modes = sorted({dotted(c.args[1]) for c in calls_in(f.node) if isinstance(c.func, ast.Attribute) and c.func.attr == "_assign_" and len(c.args) > 1})
+        run.ob(ok, f"AssignableType.{meth}", file=at.rel, line=f.node.lineno, detail="mode", expected=f"self._assign_(source, AssignMode.{mode}); return self", found=str(modes))
+    setters = {"next": ast.LShift, "value": ast.MatMult, "push": ast.BitXor}
+    for prop, op in setters.items():
+        fs = [g for g in at.funcs_named(f"AssignableType.{prop}") if any((dotted(d) or "").endswith(".setter") for d in g.node.decorator_list)]
+        if len(fs) != 1:
+            raise AnalysisError(f"anchor vanished: setter of AssignableType.{prop}")
+        g = fs[0]
+        param = g.node.args.args[1].arg
+        augs = [a for a in walk_local(g.node) if isinstance(a, ast.AugAssign)]
+        ok = len(augs) == 1 and isinstance(augs[0].op, op) and dotted(augs[0].target) == "self" and dotted(augs[0].value) == param
+        run.ob(ok, f"AssignableType.{prop}.setter", file=at.rel, line=g.node.lineno, detail="operator", expected=f"self {'<<=' if op is ast.LShift else '@=' if op is ast.MatMult else '^='} value", found="; ".join(src(a) for a in augs) or "no augmented assignment")
+    run.end()
+
+
+def rule_writeback(run):
+    from ..rules import roles as _roles
+    _roles.run_writeback_rule(run, "F-WRITEBACK")
+
+
+RULES = [rule_chain, rule_pushed, rule_alias, rule_index_capture, rule_if_merge, rule_writeback, rule_with_exit, rule_std_assignable]
 LEVEL = "other"
 EXPLANATION = (
     "Table/shape analysis of the assignment pipeline for all programs at once: the nine hand-written stages that carry "
